@@ -5,19 +5,19 @@ package gomatrixserverlib
 // Contracts for gvc (comment-only; compiled only with -tags verif and then adds no code).
 
 //@ func (*PowerLevelContent).UserLevel
-//@   property C08
+//@   property C08, C07
 //@   requires c != nil
 //@   ensures level: result == UL(*c, senderID)
 //@   assigns nothing
 
 //@ func (*PowerLevelContent).EventLevel
-//@   property C08
+//@   property C08, C07
 //@   requires c != nil
 //@   ensures level: result == ELstate(*c, eventType, isState)
 //@   assigns nothing
 
 //@ func (*PowerLevelContent).NotificationLevel
-//@   property C08
+//@   property C08, C07
 //@   requires c != nil
 //@   ensures level: result == NL(*c, notification)
 //@   assigns nothing
@@ -136,5 +136,32 @@ package gomatrixserverlib
 //@   property C07
 //@   frameprop C09
 //@   requires m != nil && m.allowerContext != nil && (m.powerLevelsEvent == nil ==> m.createEvent != nil) && m.roomVersionImpl != nil && m.provider != nil
-//@   ensures iff: (err == nil) <==> (m.roomVersionImpl.CheckRestrictedJoinsAllowed() == nil && (treatAsInvite(old(m.oldMember.Membership), old(m.newMember.AuthorisedVia)) || (viaIDOK(m.roomVersionImpl, m.newMember.AuthorisedVia) && viaJoined(m.provider, m.newMember.AuthorisedVia) && effLevel(*m.allowerContext, m.newMember.AuthorisedVia) >= m.powerLevels.Invite)))
+//@   ensures iff: (err == nil) <==> restrictedJoinSpec(*m)
+//@   ensures rule: err == nil ==> result[0] == (treatAsInvite(m.oldMember.Membership, m.newMember.AuthorisedVia) ? "invite" : "public")
+//@   assigns nothing
+
+//@ func (*membershipAllower).membershipAllowedSelf
+//@   property C07
+//@   frameprop C09
+//@   requires m != nil && m.allowerContext != nil && (m.powerLevelsEvent == nil ==> m.createEvent != nil) && m.roomVersionImpl != nil && m.provider != nil
+//@   ensures iff: (err == nil) <==> selfSpec(*m)
+//@   assigns nothing
+
+//@ func VerifyJSON
+//@   trusted
+//@   ensures abstract: (err == nil) <==> vjOK(signingName, keyID, str(publicKey), str(message))
+//@   assigns nothing
+
+//@ func (*membershipAllower).membershipAllowedFromThirdPartyInvite
+//@   property C07
+//@   frameprop C09
+//@   requires m != nil && m.allowerContext != nil && m.newMember.ThirdPartyInvite != nil
+//@   ensures mxid: err == nil ==> m.targetID == m.newMember.ThirdPartyInvite.Signed.MXID
+//@   ensures marshalled: err == nil ==> (called(Marshal) && ret(Marshal, 1) == nil)
+//@   ensures verified: err == nil ==> tpiVerified(m.thirdPartyInvite.PublicKeys, m.newMember.ThirdPartyInvite.Signed.Signatures, str(ret(Marshal, 0)), len(m.thirdPartyInvite.PublicKeys))
+//@   ensures complete: (m.targetID == m.newMember.ThirdPartyInvite.Signed.MXID && called(Marshal) && ret(Marshal, 1) == nil && tpiVerified(m.thirdPartyInvite.PublicKeys, m.newMember.ThirdPartyInvite.Signed.Signatures, str(ret(Marshal, 0)), len(m.thirdPartyInvite.PublicKeys))) ==> err == nil
+//@   loop 1: invariant 0 <= idx(1) && idx(1) <= len(m.thirdPartyInvite.PublicKeys)
+//@   loop 1: invariant forall i int :: 0 <= i && i < idx(1) ==> tpiKeyFails(m.thirdPartyInvite.PublicKeys[i], m.newMember.ThirdPartyInvite.Signed.Signatures, str(marshalledSigned))
+//@   loop 2: invariant forall d string, k string :: { seen(2)[d], k in get(m.newMember.ThirdPartyInvite.Signed.Signatures, d) } (seen(2)[d] && k in get(m.newMember.ThirdPartyInvite.Signed.Signatures, d) && hasPrefix(k, "ed25519")) ==> !vjOK(d, k, str(publicKey.PublicKey), str(marshalledSigned))
+//@   loop 3: invariant forall k string :: (seen(3)[k] && hasPrefix(k, "ed25519")) ==> !vjOK(domain, k, str(publicKey.PublicKey), str(marshalledSigned))
 //@   assigns nothing
